@@ -114,18 +114,21 @@ def parseOutExt (s : String) : Option OutExt :=
 
 def checkExtract (op : ExtractOp) (rs : List OutExt) : Option String :=
   let kind := op.fields.filter fun f => !f.isCoil
-  let find (n : String) : Option Field := op.fields.find? (·.name == n)
+  -- names identify a field among the fields of ITS device: the same name may be used on several devices
+  let findIn (r : OutExt) (n : String) : Option Field :=
+    (op.fields.find? fun f => f.name == n && f.server == r.server && f.unit.toNat == r.unit).orElse
+      fun _ => op.fields.find? (·.name == n)
   let truncated := op.trunc.isSome
   -- every field of the kind belongs to exactly one request (by window + target)
-  let owners (f : Field) := rs.filter fun r => r.names.contains f.name
+  let owners (f : Field) := rs.filter fun r => r.names.contains f.name && r.server == f.server && r.unit == f.unit.toNat
   let bad := rs.findSome? fun r =>
     let n := op.regCount r.qty
     if r.start + r.qty > 65536 then none else     -- outside the clause (C06 reports such requests)
     if n == 0 then (if r.status == "parse-err" || r.status == "failed" then none else some "an empty reply must be refused") else
     let reachable (f : Field) : Bool := f.addr.toNat + f.size ≤ r.start + n
-    let fs := r.vals.filterMap fun (k, _) => find k
+    let fs := r.vals.filterMap fun (k, _) => findIn r k
     if fs.length != r.vals.length then some "a reported value has no field definition" else
-    let mine := kind.filter fun f => r.names.contains f.name
+    let mine := kind.filter fun f => r.names.contains f.name && f.server == r.server && f.unit.toNat == r.unit
     let anyUnreach := mine.any fun f => !reachable f
     -- a device that answers as the specification requires delivers the whole window: every field must be inside it
     if !truncated && anyUnreach then some "a field lies outside the window of the request that carries it: a conforming reply cannot deliver it" else
@@ -137,7 +140,7 @@ def checkExtract (op : ExtractOp) (rs : List OutExt) : Option String :=
       if r.vals.map (·.1) != r.names then some "a delivering request must report exactly its own fields" else
       if r.status == "all" && anyUnreach then some "unreachable fields must be marked failed" else
       r.vals.findSome? fun (k, v) =>
-        match find k with
+        match findIn r k with
         | none => some "unknown field"
         | some f =>
           if !(f.server == r.server && f.unit.toNat == r.unit) then some s!"field {k} reported by a request to another device" else
@@ -151,21 +154,24 @@ def checkExtract (op : ExtractOp) (rs : List OutExt) : Option String :=
   | none =>
     -- every field exactly once (among requests that delivered values)
     let delivered := rs.filter fun r => r.status == "all" || r.status == "some"
-    let names := delivered.flatMap fun r => r.vals.map (·.1)
+    let names := delivered.flatMap fun r => r.vals.map fun v => (v.1, r.server, r.unit)
     let _ := truncated
     kind.findSome? fun f =>
       let own := owners f
       if own.length != 1 then some s!"field {f.name} is covered by {own.length} requests" else
       let r := own.headD { server := "", unit := 0, start := 0, qty := 0, names := [], status := "", vals := [] }
       if r.status == "all" || r.status == "some" then
-        if (names.filter (· == f.name)).length == 1 then none else some s!"field {f.name} not reported exactly once"
+        if (names.filter (· == (f.name, f.server, f.unit.toNat))).length == 1 then none else some s!"field {f.name} not reported exactly once"
       else none
 
 /-- coil fields extracted through the builder (C11): the value is bit (i mod 8) of payload byte (i div 8) as the
 device sent it, i.e. the device's coil; a field beyond the payload's last bit is an error -/
 def checkCoilExtract (op : ExtractOp) (rs : List OutExt) : Option String :=
-  let find (n : String) : Option Field := op.fields.find? (·.name == n)
+  let findIn (r : OutExt) (n : String) : Option Field :=
+    (op.fields.find? fun f => f.name == n && f.server == r.server && f.unit.toNat == r.unit).orElse
+      fun _ => op.fields.find? (·.name == n)
   rs.findSome? fun r =>
+    let find := findIn r
     let n := op.regCount r.qty
     if n == 0 then none else
     let nbits := 8 * ((n + 7) / 8)
